@@ -95,14 +95,20 @@ OPS = [
 ]
 
 
+BASE = "/repo"
+ONLY_LINES = None     # {file: set(line numbers)} restriction (mutating a refactored variant: only the lines it changed)
+
+
 def generate(files, ops):
     muts = []
     for f in files:
-        path = os.path.join("/repo", f)
+        path = os.path.join(BASE, f)
         if not os.path.exists(path):
             continue
         lines, code = code_lines(path)
         for (i, l) in code:
+            if ONLY_LINES is not None and (i + 1) not in ONLY_LINES.get(f, ()):
+                continue
             for op in OPS:
                 name, pat, repl = op
                 if ops and name not in ops:
@@ -134,7 +140,7 @@ def work(m):
     base = os.path.join(ROOT, "w%d" % w)
     tree = os.path.join(base, "repo")
     os.makedirs(base, exist_ok=True)
-    subprocess.run(["rsync", "-a", "--delete", "--exclude", ".git", "--exclude", "target", "--exclude", "wasm", "/repo/", tree + "/"], check=True)
+    subprocess.run(["rsync", "-a", "--delete", "--exclude", ".git", "--exclude", "target", "--exclude", "wasm", BASE + "/", tree + "/"], check=True)
     p = os.path.join(tree, m["file"])
     lines = open(p).read().split("\n")
     assert lines[m["line"]] == m["old"]
@@ -181,6 +187,33 @@ def report():
             print("  %-40s %s" % (r["id"], r["new"].strip()[:110]))
 
 
+def prepare_variant(vdir):
+    """base tree = /repo + the variant's patch; returns the lines the patch added (new numbering)"""
+    global BASE, ONLY_LINES
+    name = os.path.basename(vdir.rstrip("/"))
+    base = os.path.join(ROOT, "base-" + name)
+    shutil.rmtree(base, ignore_errors=True)
+    os.makedirs(ROOT, exist_ok=True)
+    subprocess.run(["rsync", "-a", "--exclude", ".git", "--exclude", "target", "--exclude", "wasm", "/repo/", base + "/"], check=True)
+    pf = os.path.abspath(os.path.join(vdir, "patch.diff"))
+    subprocess.run(["patch", "-p1", "-s", "--no-backup-if-mismatch", "-i", pf], cwd=base, check=True)
+    lines = {}
+    cur, n = None, 0
+    for l in open(pf):
+        if l.startswith("+++ "):
+            cur = l[4:].strip().split("\t")[0]
+            cur = cur[2:] if cur.startswith("b/") else cur
+        elif l.startswith("@@"):
+            n = int(re.search(r"\+(\d+)", l).group(1)) - 1
+        elif cur and l.startswith("+") and not l.startswith("+++"):
+            n += 1
+            lines.setdefault(cur, set()).add(n)
+        elif cur and not l.startswith("-"):
+            n += 1
+    BASE, ONLY_LINES = base, lines
+    return name
+
+
 def main():
     global ONLY_CHECKS
     a = sys.argv[1:]
@@ -194,7 +227,14 @@ def main():
     ops = a[a.index("--ops") + 1].split(",") if "--ops" in a else None
     limit = int(a[a.index("--limit") + 1]) if "--limit" in a else None
     ONLY_CHECKS = "--only-checks" in a
+    vname = None
+    if "--variant" in a:
+        vname = prepare_variant(a[a.index("--variant") + 1])
     muts = generate(files, ops)
+    if vname:
+        for m in muts:
+            m["id"] = vname + "|" + m["id"]
+            m["variant"] = vname
     if "--ids" in a:
         want = set(a[a.index("--ids") + 1].split(","))
         muts = [m for m in muts if m["id"] in want]
@@ -206,7 +246,7 @@ def main():
             print(m["id"], "|", m["new"].strip())
         return
     os.makedirs(ROOT, exist_ok=True)
-    outp = os.path.join(V, "selftest", "mutation_results.jsonl")
+    outp = os.path.join(V, "selftest", "mutation_variants.jsonl" if vname else "mutation_results.jsonl")
     done = {}
     if os.path.exists(outp) and "--fresh" not in a:
         for l in open(outp):
@@ -229,7 +269,7 @@ def main():
             with open(outp, "w") as f:
                 for k in sorted(done):
                     f.write(json.dumps(done[k]) + "\n")
-    report()
+    report() if not vname else None
 
 
 if __name__ == "__main__":
